@@ -25,6 +25,9 @@
 // The scale stream (slices of 2^k-1, 2^k, 2^k+1 elements up to 8193, element types other than int,
 // named inputs, bounded outputs):  X <op> <ty> <rep> <pre> <extra> <n> <vgen> <arg>, see scale.go.
 //
+// Reverse, Dedup, Select and MatchingKeys at int, string, float64 (NaN, signed zeros) and a 40-byte
+// struct, on views with spare capacity, nil and empty:  Y <op> <ty> ..., see more.go.
+//
 // Zero-size elements (known finding F13; corpus only -- these calls are linear in len unless they
 // panic at once):
 //
@@ -183,6 +186,12 @@ func exec(in string) string {
 			curOp = "X" + f[1]
 		}
 		return execX(f)
+	}
+	if f[0] == "Y" { // Reverse, Dedup, Select, MatchingKeys at several element types (more.go)
+		if len(f) > 1 {
+			curOp = "Y" + f[1]
+		}
+		return execY(f)
 	}
 	if f[0] == "S" {
 		i, _ := strconv.Atoi(f[1])
@@ -513,6 +522,8 @@ func main() {
 			}
 			// sizes around powers of two up to 8193, element types other than int (scale.go)
 			genScale(g)
+			// exported functions no generator called before round 7 (more.go)
+			genReverse(g)
 			// random, larger, duplicate values
 			rnd := func(maxN, maxV int) []int {
 				n := g.R.Intn(maxN + 1)
